@@ -383,6 +383,7 @@ class Kernel:
         self.setcalls = []  # delivered setters
         self.sleeps = []
         self.timer_reads = []
+        self.max_time_events = 20000
         self.on_time = None  # callback(now) invoked whenever time advances
         self.waitpid_eintr = set()  # indices of waitpid calls that raise EINTR
         self.waitpid_calls = 0
@@ -1033,7 +1034,8 @@ class SimOS:
 
     def kill(self, pid, sig):
         k = self._k
-        k._access("kill", None, pid, sig=sig)
+        entry = k._access("kill", None, pid, sig=sig)
+        entry["time"] = k.now
         if not isinstance(pid, int) or isinstance(pid, bool):
             raise TypeError("an integer is required")
         if not -2**31 <= pid < 2**31:
@@ -1054,18 +1056,23 @@ class SimOS:
             raise oserr(errno.EPERM)
         if sig != 0:
             k.kills.append((pid, sig, p.inc))  # delivered
+        entry["result"] = "alive"
         return None
 
     def waitpid(self, pid, options):
         k = self._k
         idx = k.waitpid_calls
         k.waitpid_calls += 1
-        k._access("waitpid", None, pid, options=options)
+        entry = k._access("waitpid", None, pid, options=options)
         if idx in k.waitpid_eintr:
+            entry["result"] = "EINTR"
             raise oserr(errno.EINTR)
         p = k.procs.get(pid)
         if p is None or not p.child:
+            entry["result"] = "ECHILD"
             raise oserr(errno.ECHILD)
+        entry["result"] = "alive" if p.wait_status is None else "reaped"
+        entry["time"] = k.now
         if p.wait_status is None:
             if options & REAL_OS.WNOHANG:
                 return (0, 0)
@@ -1274,6 +1281,10 @@ class SimCext:
 # --------------------------------------------------------------------------
 
 
+class VirtualTimeExhausted(Exception):
+    """Step bound of the virtual clock (termination guard, not a wall clock)."""
+
+
 class SimTime:
     def __init__(self, kernel):
         self._k = kernel
@@ -1291,6 +1302,8 @@ class SimTime:
     def monotonic(self):
         k = self._k
         k.timer_reads.append(k.now)
+        if len(k.timer_reads) > k.max_time_events:
+            raise VirtualTimeExhausted("more than %d clock readings" % k.max_time_events)
         return k.now
 
     def time(self):
@@ -1299,6 +1312,8 @@ class SimTime:
     def sleep(self, secs):
         k = self._k
         k.sleeps.append((k.now, secs))
+        if len(k.sleeps) > k.max_time_events:
+            raise VirtualTimeExhausted("more than %d sleeps" % k.max_time_events)
         if secs < 0:
             raise ValueError("sleep length must be non-negative")
         self._advance(secs)
